@@ -322,7 +322,7 @@ func gen12(run *vlib.Run, r *vlib.Rand, tier string) {
 			var cs vlib.List
 			for _, c := range probes(m, 0xFFFFFFFF) {
 				cs = append(cs, vlib.U64(uint64(c)))
-				if len(cs) >= 200 {
+				if len(cs) >= 60 {
 					break
 				}
 			}
@@ -343,16 +343,16 @@ func gen12(run *vlib.Run, r *vlib.Rand, tier string) {
 	encAndKeep(gmap{5: 0, 6: 0, 7: 0}, 0, "boundary") // explicit glyph 0 entries
 
 	tops := []uint32{0xFFFF, 0x10FFFF, 0x10FFFF, 0x2FFFF, 0xFFFFFFFE}
-	n := vlib.Count(tier, 500, 12000)
+	n := vlib.Count(tier, 300, 10000)
 	for i := 0; i < n; i++ {
 		m, labels := randomMap(r, vlib.Pick(r, tops))
 		encAndKeep(m, vlib.Pick(r, langs), labels...)
 	}
 
 	// large maps: up to 65536 entries, and just above
-	big := []int{65535, 65536}
+	big := []int{65536}
 	if tier == "thorough" {
-		big = append(big, 40000, 65536, 65536)
+		big = append(big, 40000, 65535, 65536, 65536)
 	}
 	for bi, sz := range big {
 		m := gmap{}
